@@ -70,11 +70,12 @@ def app_scenario(ctx):
     if fmt == 'npy':
         feats = []
         # files are listed explicitly on the command line, in trajectory order - which need not be the order of their names
-        names = t.perm(len(rows)) if t.flag() else list(range(len(rows)))
+        use_glob = t.flag(1, 4)          # the files will be named by ONE quoted pattern: names in trajectory order, one prefix
+        names = t.perm(len(rows)) if (t.flag() and not use_glob) else list(range(len(rows)))
         if names != sorted(names):
             ctx.hit('app_files_not_in_name_order')
         for i, r in enumerate(rows):
-            fn = os.path.join(d, 'run-%d.npy' % names[i]) if t.flag() else os.path.join(d, 'feat%02d.npy' % names[i])
+            fn = os.path.join(d, 'run-%d.npy' % names[i]) if (t.flag() and not use_glob) else os.path.join(d, 'feat%02d.npy' % names[i])
             if fn in feats:
                 fn = os.path.join(d, 'feat%02d.npy' % names[i])
             np.save(fn, r)
@@ -88,7 +89,12 @@ def app_scenario(ctx):
             P.l2g = M.local_to_global(P.lengths, 1)
     out = dict(dist=os.path.join(d, 'out-dist.h5'), assig=os.path.join(d, 'out-assig.h5'),
                ctr=os.path.join(d, 'out-centers.npy'), inds=os.path.join(d, 'out-inds.npy'))
-    argv = ['cluster', '--features'] + feats + ['--algorithm', algo, '--cluster-distance', P.metric_name,
+    feats_arg = feats
+    if fmt == 'npy' and use_glob:
+        # one quoted glob pattern instead of the list of files: the front end expands it itself (in sorted order)
+        feats_arg = [os.path.join(d, 'feat*.npy')]
+        ctx.hit('app_features_as_glob_pattern')
+    argv = ['cluster', '--features'] + feats_arg + ['--algorithm', algo, '--cluster-distance', P.metric_name,
                                                 '--distances', out['dist'], '--assignments', out['assig'],
                                                 '--center-features', out['ctr'], '--center-indices', out['inds']]
     if k is not None:
